@@ -2659,6 +2659,42 @@ def rule_ndjson_lookahead(out, tier):
                           "the handler ends in a throw", "a handler for `%s` completes normally: malformed or truncated JSON is turned into a normal result" % etype)
 
 
+def rule_ndjson_presence_by_key(out, tier):
+    rid = "NL2"
+    out.rule(rid, "detail/ndjson/serializers.h ReadProtocolValue (when nlohmann/json.hpp is installed): whether the line belongs to the step is decided by a key lookup (at / find / contains / count), "
+                  "never by `is_null()` of a looked-up value or through `operator[]`: a stream item that IS null (an empty optional, the null case of a union) is a value, not the absence of the step", 0)
+    roots, rc, err = dump_ndjson(out.repo, "serializers.h")
+    rel = INC + "/detail/ndjson/serializers.h"
+    if roots is None:
+        out.stats["NL2_not_analysed"] = err
+        return
+    if rc != 0 or not roots:
+        out.undecided(rid, "clang/ndjson/serializers.h", rel, "clang could not parse the header: " + err[-300:])
+        return
+    for r in roots:
+        annotate_lines(r)
+    fn = dict(free_functions(roots)).get("ReadProtocolValue")
+    if fn is None:
+        out.undecided(rid, "ReadProtocolValue", rel, "not found")
+        return
+    bad = None
+    lookups = 0
+    for n in walk(body_of(fn)):
+        k = n.get("kind")
+        t = txt(n).replace(" ", "") if k in ("CXXMemberCallExpr", "CXXOperatorCallExpr", "CallExpr", "CXXDependentScopeMemberExpr", "MemberExpr") else ""
+        if k in ("CXXMemberCallExpr", "CallExpr") and re.search(r"\.is_null\(|->is_null\(", t):
+            bad = (n, "is_null()")
+        if k in ("MemberExpr", "CXXDependentScopeMemberExpr") and n.get("name") == "is_null" or (k in ("MemberExpr", "CXXDependentScopeMemberExpr") and (n.get("member") == "is_null")):
+            bad = (n, "is_null()")
+        if k == "CXXOperatorCallExpr" and "[" in t and "]" in t and re.search(r"(unused_step|parsed_step|\*unused_step|step)\)?\[", t):
+            bad = bad or (n, "operator[]")
+        if k in ("CXXMemberCallExpr", "CallExpr", "MemberExpr", "CXXDependentScopeMemberExpr") and re.search(r"(\.|->)(at|find|contains|count)\(", t):
+            lookups += 1
+    posn = "%s:%d" % (rel, (bad[0] if bad else fn).get("_line", 0))
+    out.check(bad is None, rid, "ReadProtocolValue/presence test", posn, "presence is decided by key lookup (%d lookups), no is_null() / operator[] on the parsed line" % lookups,
+              "ReadProtocolValue uses %s on the parsed line: a stream item that is JSON null (an absent `T?` item, the null case of a union) is taken for a line of a later step — the stream ends early and the next required step throws" % (bad[1] if bad else ""))
+
+
 def rule_ndjson_field_omission(out, tier):
     rid = "NS1"
     out.rule(rid, "detail/ndjson/serializers.h ShouldSerializeFieldValue (analysed when nlohmann/json.hpp is installed): a record field is left out of the JSON only for an empty "
@@ -2798,11 +2834,11 @@ def rule_no_swallowed_eof(out, tier):
 
 
 RULES = {
-    "C16": [rule_coded_stream_bounds, rule_blocks, rule_fill_loops_end, rule_stream_reads_counted, rule_no_swallowed_eof, rule_ndjson_lookahead, rule_varint_decoders_agree],
+    "C16": [rule_coded_stream_bounds, rule_blocks, rule_fill_loops_end, rule_stream_reads_counted, rule_no_swallowed_eof, rule_ndjson_lookahead, rule_ndjson_presence_by_key, rule_varint_decoders_agree],
     "C01": [rule_varint_decoders_agree, rule_coded_stream_bounds, rule_serializer_twins, rule_output_order, rule_reader_overwrites, rule_trivial_trait_set, rule_blocks, rule_zigzag_width, rule_integer_dispatch, rule_shift_in_destination_type, rule_varint_constants],
     "C15": [rule_cxx_header, rule_ndjson_header, rule_no_static_locals_from_arguments],
-    "C02": [rule_ndjson_lookahead, rule_ndjson_field_omission],
+    "C02": [rule_ndjson_lookahead, rule_ndjson_presence_by_key, rule_ndjson_field_omission],
     "C04": [rule_cxx_header, rule_output_order, rule_ndjson_header, rule_no_static_locals_from_arguments],
-    "C03": [rule_blocks, rule_ndjson_lookahead, rule_varint_decoders_agree, rule_output_order, rule_reader_overwrites, rule_integer_dispatch, rule_shift_in_destination_type, rule_zigzag_width, rule_varint_constants],
-    "C17": [rule_reader_overwrites, rule_blocks, rule_trivial_trait_set, rule_output_order, rule_pointer_offset_units, rule_coded_stream_bounds],
+    "C03": [rule_blocks, rule_ndjson_lookahead, rule_ndjson_presence_by_key, rule_varint_decoders_agree, rule_output_order, rule_reader_overwrites, rule_integer_dispatch, rule_shift_in_destination_type, rule_zigzag_width, rule_varint_constants],
+    "C17": [rule_ndjson_presence_by_key, rule_ndjson_lookahead, rule_reader_overwrites, rule_blocks, rule_trivial_trait_set, rule_output_order, rule_pointer_offset_units, rule_coded_stream_bounds],
 }
